@@ -629,7 +629,7 @@ def render_proc(st: Style, p: Proc, scope_kind: str) -> List[Stmt]:
     for n in p.namelists:
         out.append(Stmt(st.kw("namelist") + " /" + n.name + "/ " + ", ".join(st.nm(v) for v in n.vars), list(n.doc)))
     for b in p.body:
-        out.append(Stmt(b))
+        out.append(Stmt(b, kind="exec"))
     if p.contains:
         out.append(Stmt(st.kw("contains")))
         for c in p.contains:
@@ -683,7 +683,7 @@ def render_unit(st: Style, u: Unit) -> List[Stmt]:
     for n in u.namelists:
         out.append(Stmt(st.kw("namelist") + " /" + n.name + "/ " + ", ".join(st.nm(v) for v in n.vars), list(n.doc)))
     for b in u.body:
-        out.append(Stmt(b))
+        out.append(Stmt(b, kind="exec"))
     if u.procs or u.mp_impls:
         out.append(Stmt(st.kw("contains")))
         for p in u.procs:
@@ -693,7 +693,7 @@ def render_unit(st: Style, u: Unit) -> List[Stmt]:
             for blk in render_vars(st, p.locals, "proc"):
                 out += blk
             for b in p.body:
-                out.append(Stmt(b))
+                out.append(Stmt(b, kind="exec"))
             out.append(Stmt(st.choice([st.kw("end") + " " + st.kw("procedure"), st.kw("end") + " " + st.kw("procedure") + " " + st.nm(p.name), st.kw("endprocedure")]), kind="end"))
     w = {"module": "module", "submodule": "submodule", "program": "program", "blockdata": "block data"}[u.kind]
     out.append(render_end(st, w, u.name or None))
